@@ -4,6 +4,7 @@ mod common;
 mod encoders;
 mod equiv;
 mod gen;
+mod meta;
 mod statics;
 mod store;
 
@@ -61,6 +62,8 @@ fn main() {
         "store" => store::run(&mut rng, count, thorough, &mut out),
         "equiv" => equiv::run(&mut rng, count, thorough, &equiv::Cfg::from_extra(&extra), &mut out),
         "static" => statics::run(&mut rng, count, thorough, &statics::Cfg::from_extra(&extra, 1), &mut out),
+        "meta" => meta::run_meta(&mut rng, count, thorough, &extra, &mut out),
+        "cross" => meta::run_cross(&mut rng, count, thorough, &extra, &mut out),
         "encoders" => encoders::run(&mut rng, count, thorough, &extra, &mut out),
         "static-multi" => statics::run(&mut rng, count, thorough, &statics::Cfg::from_extra(&extra, 3), &mut out),
         _ => {
